@@ -166,17 +166,47 @@ def _walk_no_nested(node):
                 stack.append(c)
 
 
+def _always_leaves(block):
+    """Some statement of the block leaves on every path (what follows it, if
+    anything, is unreachable)."""
+    for st in block or ():
+        if isinstance(st, (ast.Return, ast.Raise, ast.Continue, ast.Break)):
+            return True
+        if isinstance(st, ast.If) and _always_leaves(st.body) and _always_leaves(st.orelse):
+            return True
+    return False
+
+
 def _canonicalise(tree):
-    """Drop `pass` statements that share a block with other statements: they
-    have no effect, and rules that speak of the first / last / only statement
-    of a block must not depend on them."""
-    for n in ast.walk(tree):
-        for fld in ("body", "orelse", "finalbody"):
-            blk = getattr(n, fld, None)
-            if isinstance(blk, list) and len(blk) > 1 \
-                    and any(isinstance(x, ast.Pass) for x in blk):
-                kept = [x for x in blk if not isinstance(x, ast.Pass)]
-                setattr(n, fld, kept or blk[:1])
+    """Two layout choices are normalised when a module is loaded, so that no
+    rule depends on them:
+
+    * `pass` statements that share a block with other statements are dropped;
+    * `if c: <body that always leaves> else: B` becomes the `if` followed by B
+      (an `elif` chain is an else holding one `if`, and is dissolved the same
+      way) - the early-exit form and the if/else form of the same code are one.
+    """
+    changed = True
+    while changed:
+        changed = False
+        for n in ast.walk(tree):
+            for fld in ("body", "orelse", "finalbody"):
+                blk = getattr(n, fld, None)
+                if not isinstance(blk, list) or not blk or not all(isinstance(x, ast.stmt) for x in blk):
+                    continue
+                if len(blk) > 1 and any(isinstance(x, ast.Pass) for x in blk):
+                    kept = [x for x in blk if not isinstance(x, ast.Pass)]
+                    blk[:] = kept or blk[:1]
+                    changed = True
+                new = []
+                for st in blk:
+                    new.append(st)
+                    if isinstance(st, ast.If) and st.orelse and _always_leaves(st.body):
+                        new.extend(st.orelse)
+                        st.orelse = []
+                        changed = True
+                if len(new) != len(blk):
+                    blk[:] = new
 
 
 class Program:
